@@ -34,6 +34,7 @@ def run(ctx):
     lib_py.gate_before_return(ctx, py, ["subset", "union"])
     # union post-processing and flag consumption
     from sa.schema import Facts
+    from sa.expr import walk, estr
     import re
     rule = "UNION-POST"
     ctx.rule(rule, "tsk_table_collection_union checks the shared portion unless TSK_UNION_NO_CHECK_SHARED, and after merging sorts, "
@@ -60,4 +61,26 @@ def run(ctx):
     body = tu.src(fn.body) + tu.src(P.need("tsk_table_collection_subset", "tables").body)
     for fl in ("TSK_UNION_NO_CHECK_SHARED", "TSK_UNION_NO_ADD_POP", "TSK_SUBSET_NO_CHANGE_POPULATIONS", "TSK_SUBSET_KEEP_UNREFERENCED"):
         ctx.ob(rule, "consumed|" + fl, len(re.findall(r"&\s*%s\b" % fl, body)) >= 1, tu.loc(fn.node), "%s is tested" % fl)
+    # the shared-portion comparison ignores exactly what the documentation says it ignores
+    fe = P.need("tsk_check_subset_equality", "tables")
+    FE = Facts(P, fe)
+    eq = FE.calls_to("tsk_table_collection_equals")
+    flags = set(re.findall(r"TSK_CMP_\w+", tu.src(eq[0][1]))) if eq else set()
+    want = {"TSK_CMP_IGNORE_TS_METADATA", "TSK_CMP_IGNORE_PROVENANCE", "TSK_CMP_IGNORE_REFERENCE_SEQUENCE"}
+    ctx.ob(rule, "shared-equality|options", flags == want, tu.loc(eq[0][1]) if eq else tu.loc(fe.node),
+           "shared portions are compared ignoring exactly top-level metadata, provenance and the reference sequence (found %s)" % sorted(flags))
+    # individuals reachable through SHARED nodes are mapped onto self's individuals before any new node is added
+    loops = [x for x in walk(fn.body) if x.k == "ForStmt"]
+    adds = FE and [n_ for c_, a_, n_ in F.calls if c_ == "tsk_table_collection_add_and_remap_node"]
+    pre = None
+    for lp in loops:
+        for x in walk(lp.kids[-1]):
+            if x.k == "BinaryOperator" and x.op == "=" and estr(x.kids[0]).startswith("individual_map[") \
+                    and re.search(r"self->nodes\.individual\[other_node_mapping\[", estr(x.kids[1])):
+                pre = (lp, x)
+    okp = pre is not None and bool(adds) and pre[0].e <= adds[0].b and not any(y is adds[0] for y in walk(pre[0]))
+    ctx.ob(rule, "union|shared-individuals-first", okp, tu.loc(pre[1]) if pre else tu.loc(fn.node),
+           "individual_map is filled from the shared nodes in a loop that ends before the first node is added" if okp else
+           "the mapping of individuals attached to shared nodes is not completed before nodes are added: an individual that owns a "
+           "shared and a new node is duplicated when the new node comes first")
     lib_mem.c_lints(ctx, ctx.program(), scopes.lib_scope("C14"))
